@@ -292,6 +292,142 @@ Qed.
 Lemma freeze_enabled s : mx s = MFree -> mx (step s AFreeze) = MFrozen.
 Proof. intros H. cbn [step]. rewrite H. reflexivity. Qed.
 
+(* ---------- link between the thread-level model and the quiescent count model ---------- *)
+Lemma count_ext_in f g l : (forall t, In t l -> f t = g t) -> count f l = count g l.
+Proof.
+  induction l as [|t l IH]; intros H; cbn [count]; [reflexivity|].
+  rewrite (H t (or_introl eq_refl)). rewrite IH; [reflexivity|]. intros u Hu. apply H. right; exact Hu.
+Qed.
+
+Lemma count_split f g h l :
+  (forall t, In t l -> b2n (f t) = b2n (g t) + b2n (h t)) -> count f l = count g l + count h l.
+Proof.
+  induction l as [|t l IH]; intros H; cbn [count]; [reflexivity|].
+  pose proof (H t (or_introl eq_refl)) as Ht. unfold b2n in Ht.
+  rewrite IH by (intros u Hu; apply H; right; exact Hu).
+  destruct (f t), (g t), (h t); cbn in Ht |- *; lia.
+Qed.
+
+Lemma count_pos f l : 0 < count f l -> exists t, In t l /\ f t = true.
+Proof.
+  induction l as [|t l IH]; cbn [count]; [lia|]. destruct (f t) eqn:E; intros H.
+  - exists t. split; [left; reflexivity|exact E].
+  - destruct (IH H) as [u [Hu Hf]]. exists u. split; [right; exact Hu|exact Hf].
+Qed.
+
+(* a stuck thread really cannot move: scheduling it changes nothing (unless its inner operation
+   completes, which is the Release command of the test scripts) *)
+Lemma stuck_no_move s i t :
+  nth_error (thr s) i = Some t -> stuck s t = true -> t_pc t <> PRun -> step s (AStep i) = s.
+Proof.
+  intros H Hs Hp. cbn [step]. rewrite H. unfold step_thread, stuck in *.
+  destruct (t_pc t); try discriminate; try congruence.
+  - destruct (Nat.ltb (tokens s) (cap s)); [discriminate|reflexivity].
+  - destruct (mtx_is_free (mx s)); [discriminate|reflexivity].
+Qed.
+
+Definition waitN (s : state) : nat :=
+  count (fun t => andb (negb (t_lock t)) (andb (negb (t_cancel t)) (match t_pc t with PWant => true | _ => false end))) (thr s).
+
+(* quiescent and not frozen: every token is held by a running inner operation, and the number of
+   running non-lock inner operations is min(pending, capacity) *)
+Lemma quiescent_unfrozen_counts s :
+  Inv s -> mx s = MFree -> quiescent s = true ->
+  tokens s = running_nonlock s /\ running_nonlock s = Nat.min (pendN s) (cap s).
+Proof.
+  intros [Htok _] Hm Hq. unfold quiescent in Hq. rewrite forallb_forall in Hq.
+  assert (Hshape : forall t, In t (thr s) ->
+            t_pc t = PDone \/ (t_pc t = PRun /\ t_cancel t = false) \/ (t_pc t = PWant /\ cap s <= tokens s)).
+  { intros t Ht. specialize (Hq t Ht). unfold stuck in Hq. rewrite Hm in Hq. cbn [mtx_is_free negb] in Hq.
+    destruct (t_pc t); try discriminate.
+    - right; right. split; [reflexivity|]. destruct (Nat.ltb (tokens s) (cap s)) eqn:E; [discriminate|].
+      apply Nat.ltb_ge in E. exact E.
+    - right; left. split; [reflexivity|]. destruct (t_cancel t); [discriminate|reflexivity].
+    - left; reflexivity. }
+  assert (E1 : tokens s = running_nonlock s).
+  { unfold tokens, running_nonlock. apply count_ext_in. intros t Ht.
+    unfold holds_token, in_inner. destruct (Hshape t Ht) as [Hp|[[Hp Hc]|[Hp _]]]; rewrite Hp; try rewrite Hc;
+      destruct (t_lock t), (t_cancel t); reflexivity. }
+  split; [exact E1|].
+  assert (E2 : pendN s = waitN s + running_nonlock s).
+  { unfold pendN, waitN, running_nonlock. apply count_split. intros t Ht.
+    unfold pend, in_inner, b2n. destruct (Hshape t Ht) as [Hp|[[Hp Hc]|[Hp _]]]; rewrite Hp; try rewrite Hc;
+      destruct (t_lock t), (t_cancel t); reflexivity. }
+  destruct (Nat.eq_dec (waitN s) 0) as [Hw|Hw].
+  - rewrite E2, Hw. cbn [Nat.add]. rewrite <- E1. symmetry. apply Nat.min_l. exact Htok.
+  - assert (Hpos : 0 < waitN s) by lia. unfold waitN in Hpos.
+    destruct (count_pos _ _ Hpos) as [t [Ht Hf]].
+    destruct (Hshape t Ht) as [Hp|[[Hp _]|[_ Hcap]]].
+    + rewrite Hp in Hf. rewrite !andb_false_r in Hf. discriminate.
+    + rewrite Hp in Hf. rewrite !andb_false_r in Hf. discriminate.
+    + assert (running_nonlock s = cap s) by lia. rewrite E2. lia.
+Qed.
+
+(* the count model computes the same number *)
+Lemma settle_run_is_min n q :
+  q_frozen q = false -> q_run q <= n ->
+  q_run (settle n q) = Nat.min (q_wait q + q_run q) n
+  /\ q_wait (settle n q) + q_run (settle n q) = q_wait q + q_run q.
+Proof. intros Hf Hr. unfold settle. rewrite Hf. cbn [q_run q_wait]. lia. Qed.
+
+Lemma settle_frozen n q : q_frozen q = true -> settle n q = q.
+Proof. intros H. unfold settle. rewrite H. reflexivity. Qed.
+
+(* hence: whatever schedule led to a quiescent unfrozen state, its running count is the one the
+   count model computes from the same number of pending calls *)
+Lemma count_model_agrees s q :
+  Inv s -> mx s = MFree -> quiescent s = true ->
+  q_frozen q = false -> q_run q <= cap s -> q_wait q + q_run q = pendN s ->
+  q_run (settle (cap s) q) = running_nonlock s
+  /\ q_wait (settle (cap s) q) = pendN s - running_nonlock s.
+Proof.
+  intros HI Hm Hq Hf Hr Hp.
+  destruct (quiescent_unfrozen_counts s HI Hm Hq) as [_ E].
+  destruct (settle_run_is_min (cap s) q Hf Hr) as [E1 E2].
+  rewrite Hp in E1, E2. split; [congruence|]. rewrite <- E in E1. lia.
+Qed.
+
+(* how the pending count moves: +1 when a valid non-lock, non-cancelled call passes the handle
+   check (CLaunch), -1 when its inner operation completes (CRelease), unchanged by every other step *)
+Lemma pendN_step_thread s i t :
+  nth_error (thr s) i = Some t ->
+  pendN (step_thread s i t) + b2n (pend t) =
+  pendN s + b2n (pend (match t_pc t with
+                       | PStart => if negb (t_valid t) then with_pc t PDone else if t_lock t then with_pc t PRun else with_pc t PWant
+                       | PWant => if Nat.ltb (tokens s) (cap s) then with_pc t PAtGate else t
+                       | PAtGate => if mtx_is_free (mx s) then with_pc t PInGate else t
+                       | PInGate => with_pc t PRun
+                       | PRun => with_pc t PDone
+                       | PDone => t
+                       end)).
+Proof.
+  intros H. unfold step_thread, pendN.
+  destruct (t_pc t) eqn:Ep; cbn [thr];
+    try (destruct (negb (t_valid t)); [|destruct (t_lock t) eqn:El]);
+    try (destruct (Nat.ltb (tokens s) (cap s)));
+    try (destruct (mtx_is_free (mx s)));
+    cbn [thr]; try (apply count_set_nth; exact H); lia.
+Qed.
+
+Lemma pendN_same s a :
+  (forall i t, a = AStep i -> nth_error (thr s) i = Some t -> t_pc t <> PStart /\ t_pc t <> PRun) ->
+  pendN (step s a) = pendN s.
+Proof.
+  intros Ha. destruct a as [i| |]; cbn [step].
+  - destruct (nth_error (thr s) i) as [t|] eqn:Ht; [|reflexivity].
+    destruct (Ha i t eq_refl Ht) as [H1 H2].
+    pose proof (pendN_step_thread s i t Ht) as E.
+    destruct (t_pc t) eqn:Ep; try congruence.
+    + destruct (Nat.ltb (tokens s) (cap s)); [|lia].
+      unfold pend, with_pc in E. cbn [t_lock t_cancel t_pc] in E. rewrite Ep in E. lia.
+    + destruct (mtx_is_free (mx s)); [|lia].
+      unfold pend, with_pc in E. cbn [t_lock t_cancel t_pc] in E. rewrite Ep in E. lia.
+    + unfold pend, with_pc in E. cbn [t_lock t_cancel t_pc] in E. rewrite Ep in E. lia.
+    + lia.
+  - destruct (mtx_is_free (mx s)); reflexivity.
+  - destruct (mx s); reflexivity.
+Qed.
+
 (* ---------- oracle ---------- *)
 Lemma check_C37_iff c :
   check_C37 c = true <->
@@ -396,6 +532,7 @@ Example c37_nonvacuous :
   let s := run (init 1 [(false, true, false); (false, true, false); (true, true, false)])
                [AStep 0; AStep 0; AStep 0; AStep 0; AStep 1; AStep 1; AFreeze; AStep 2; AStep 1; AStep 1] in
   map t_pc (thr s) = [PRun; PWant; PRun] /\ mx s = MFrozen /\ tokens s = 1 /\ running_nonlock s = 1
+  /\ quiescent (step s AUnfreeze) = true /\ pendN s = 2 /\ running_nonlock s = Nat.min (pendN s) 1
   /\ check_case (mk 1 [CLaunch false true false; CLaunch false true false; CLaunch true true false; CFreeze; CRelease false; CUnfreeze]
                  [mkO 1 0 1 0 0 1; mkO 1 0 1 0 0 1; mkO 1 1 1 1 0 1; mkO 1 1 1 1 0 1; mkO 1 1 0 1 1 1; mkO 2 1 1 1 1 1]) = 0
   /\ check_case (mk 1 [CLaunch false true false; CLaunch false true false] [mkO 1 0 1 0 0 1; mkO 2 0 2 0 0 2]) = 2
